@@ -40,17 +40,23 @@ NT == Len(Tokens)
 
 VARIABLES c, ph
 vars == <<c, ph>>
+\* nesting depth of expressions / statements: no operand width limits it, the compiler's and the optimizer's own
+\* bookkeeping (expression levels, recursion) must cope or refuse with an error
+Depths == {8, 31, 32, 33, 63, 64, 65, 66, 127, 128, 129, 255, 256, 257, 1000, 3000}
+NestKinds == {"parens", "unary", "not", "array", "map", "binary-right", "binary-left", "call", "func", "if", "index", "ternary", "try"}
 Init == ph = 0 /\ (IF Part = "limits"
-                   THEN c \in {x \in [r : Resources, d : {-1, 0, 1}, nest : Nestings, form : UNION {Forms(r) : r \in Resources}] : x.form \in Forms(x.r)}
+                   THEN \/ c \in {x \in [r : Resources, d : {-1, 0, 1}, nest : Nestings, form : UNION {Forms(r) : r \in Resources}] : x.form \in Forms(x.r)}
+                        \/ c \in [r : {"depth"}, d : Depths, nest : {"main", "function"}, form : NestKinds]
                    ELSE c \in [n : 0..MaxLen, s : [1..MaxLen -> 1..NT]])
 Judge == ph = 0 /\ ph' = 1 /\ UNCHANGED c
 Next == Judge
 Spec == Init /\ [][Next]_vars
 Canon == Part = "soup" => \A i \in (c.n + 1)..MaxLen : c.s[i] = 1
 \* the capacity table is monotone: one more than the capacity never fits
-Monotone == (ph = 1 /\ Part = "limits") => (Predict(c.r, Capacity(c.r)) = "ok" /\ Predict(c.r, Capacity(c.r) + 1) = "error")
+Monotone == (ph = 1 /\ Part = "limits" /\ c.r # "depth") => (Predict(c.r, Capacity(c.r)) = "ok" /\ Predict(c.r, Capacity(c.r) + 1) = "error")
 Export == (ph = 1 /\ Canon) =>
   CSVWrite("%1$s", <<ToJson(IF Part = "limits"
-                            THEN [k |-> "limit", r |-> c.r, n |-> Capacity(c.r) + c.d, nest |-> c.nest, form |-> c.form, pred |-> Predict(c.r, Capacity(c.r) + c.d)]
+                            THEN (IF c.r = "depth" THEN [k |-> "limit", r |-> c.r, n |-> c.d, nest |-> c.nest, form |-> c.form, pred |-> "any"]
+                                  ELSE [k |-> "limit", r |-> c.r, n |-> Capacity(c.r) + c.d, nest |-> c.nest, form |-> c.form, pred |-> Predict(c.r, Capacity(c.r) + c.d)])
                             ELSE [k |-> "soup", s |-> [i \in 1..c.n |-> Tokens[c.s[i]]]])>>, IOEnv.OUT)
 =============================================================================
